@@ -3,7 +3,7 @@ HOOKS = {
     "guard": "verif",
     "enable": "go build -tags verif (drivers are added to the module with -overlay, see lib/vlib/gobuild.py)",
     "baseline_off_cmd": "cd /repo && GOFLAGS=-mod=mod GOPROXY=off GOSUMDB=off GOTOOLCHAIN=local go test -json -vet=off -count=1 -timeout 25m ./...",
-    "source_commits": ["0c4db6e", "42202d4", "7d1cb3d", "e865236"],
+    "source_commits": ["0c4db6e", "42202d4", "7d1cb3d", "e865236", "d3573ec"],
     "add_only": True,
 }
 ENGINES = [
